@@ -106,6 +106,7 @@ type fctx struct {
 	noDefer    bool
 	deferred   int
 	retGuarded bool
+	rangeRet   bool // a return inside a range loop was emitted, or a rangeRet function is called
 }
 
 type gen struct {
@@ -130,6 +131,7 @@ type gen struct {
 	tagN          int
 	inExprClosure int
 	inExprCall    int
+	rangeDepth    int  // >0: lexically inside a range loop of an enclosing function (closure bodies)
 	strSafe       int  // >0: string operands are literals, constants and read-only variables only
 	noReturn      int  // >0: no early return statements (inside a default clause)
 	noCmt         int  // >0: no comment decoration (inside type / const groups)
@@ -921,6 +923,7 @@ func (g *gen) funcDecl() {
 		f.cost = fb - g.budget + 2
 	}
 	f.pure = !g.fc.impure
+	f.rangeRet = g.fc.rangeRet
 	f.panics = g.fc.panics && !recovering
 	g.scopes, g.fc, g.budget, g.mult, g.stmts = saveScopes, saveFc, saveBudget, saveMult, saveStmts
 	g.ind--
